@@ -57,7 +57,7 @@ typedef struct {
     int w, h, n, bd, content, stride_extra, padfill, scribble, drain, drain_k, recon, decode, hex, dec_threads,
         dec16, watchdog, dirty, eos, pts_base, pts_step, delay_us, annexb, noinit_defaults, fg_skip, dumpcfg, padseed, tight, guard;
     int sse, dumpsse;                       /* C26: print SSE / SRCHEX / DECHEX lines for every decoded picture */
-    int final_nb, callseed;                 /* C27: non-blocking final drain; seed of the random call pattern (0: derived from seed) */
+    int final_nb, callseed, cr_extra;                 /* C27: non-blocking final drain; seed of the random call pattern (0: derived from seed) */
     uint64_t seed;
 } Params;
 
@@ -123,7 +123,7 @@ static int sample_at(const Params *P, int f, int p, int x, int y) {
     }
 }
 
-typedef struct { uint8_t *luma, *cb, *cr; size_t ysz, csz; } Pic;
+typedef struct { uint8_t *luma, *cb, *cr; size_t ysz, csz, crsz; } Pic;
 
 /* ---- guard-page allocation of the caller's planes (guard=1) ---- */
 typedef struct { uint8_t *base; size_t maplen; uint8_t *buf; size_t size; int plane, frame, released; } GuardRegion;
@@ -163,14 +163,15 @@ static void guard_release(uint8_t *buf) {
 static void make_pic(const Params *P, int f, EbSvtIOFormat *io, Pic *pic, Rng *padrng) {
     int bps = P->bd > 8 ? 2 : 1;
     int ys = P->w + P->stride_extra, cs = P->w / 2 + P->stride_extra / 2;
+    int crs = cs + P->cr_extra;          /* cr_extra=<n>: the Cr plane gets its own line stride (cb_stride != cr_stride is a valid EbSvtIOFormat) */
     int ch = P->h / 2, cw = P->w / 2;
-    pic->ysz = (size_t)ys * P->h * bps; pic->csz = (size_t)cs * ch * bps;
-    if (P->tight) { pic->ysz = ((size_t)ys * (P->h - 1) + P->w) * bps; pic->csz = ((size_t)cs * (ch - 1) + cw) * bps; }
-    if (P->guard) { pic->luma = guard_alloc(pic->ysz, 0, f); pic->cb = guard_alloc(pic->csz, 1, f); pic->cr = guard_alloc(pic->csz, 2, f); }
-    else { pic->luma = malloc(pic->ysz); pic->cb = malloc(pic->csz); pic->cr = malloc(pic->csz); }
+    pic->ysz = (size_t)ys * P->h * bps; pic->csz = (size_t)cs * ch * bps; pic->crsz = (size_t)crs * ch * bps;
+    if (P->tight) { pic->ysz = ((size_t)ys * (P->h - 1) + P->w) * bps; pic->csz = ((size_t)cs * (ch - 1) + cw) * bps; pic->crsz = ((size_t)crs * (ch - 1) + cw) * bps; }
+    if (P->guard) { pic->luma = guard_alloc(pic->ysz, 0, f); pic->cb = guard_alloc(pic->csz, 1, f); pic->cr = guard_alloc(pic->crsz, 2, f); }
+    else { pic->luma = malloc(pic->ysz); pic->cb = malloc(pic->csz); pic->cr = malloc(pic->crsz); }
     uint8_t *pl[3] = {pic->luma, pic->cb, pic->cr};
     for (int p = 0; p < 3; p++) {
-        int W = p ? cw : P->w, H = p ? ch : P->h, S = p ? cs : ys;
+        int W = p ? cw : P->w, H = p ? ch : P->h, S = p == 2 ? crs : p ? cs : ys;
         for (int y = 0; y < H; y++)
             for (int x = 0; x < S; x++) {
                 int v;
@@ -183,12 +184,12 @@ static void make_pic(const Params *P, int f, EbSvtIOFormat *io, Pic *pic, Rng *p
     }
     memset(io, 0, sizeof(*io));
     io->luma = pic->luma; io->cb = pic->cb; io->cr = pic->cr;
-    io->y_stride = ys; io->cb_stride = cs; io->cr_stride = cs;
+    io->y_stride = ys; io->cb_stride = cs; io->cr_stride = crs;
     io->width = P->w; io->height = P->h; io->color_fmt = EB_YUV420; io->bit_depth = P->bd > 8 ? EB_TEN_BIT : EB_EIGHT_BIT;
 }
 static void scribble_free(Pic *pic, Rng *r, int guard) {
     memset(pic->luma, (int)(rnd(r) & 0xff), pic->ysz); memset(pic->cb, (int)(rnd(r) & 0xff), pic->csz);
-    memset(pic->cr, (int)(rnd(r) & 0xff), pic->csz);
+    memset(pic->cr, (int)(rnd(r) & 0xff), pic->crsz);
     if (guard) { guard_release(pic->luma); guard_release(pic->cb); guard_release(pic->cr); }
     else { free(pic->luma); free(pic->cb); free(pic->cr); }
 }
@@ -358,7 +359,7 @@ int main(int argc, char **argv) {
         PAR(decode) PAR(hex) PAR(dec_threads) PAR(dec16) PAR(watchdog) PAR(dirty) PAR(eos) PAR(pts_base) PAR(pts_step) PAR(delay_us)
         PAR(fg_skip) PAR(dumpcfg) PAR(padseed) PAR(tight) PAR(guard)
         PAR(sse) PAR(dumpsse)
-        PAR(final_nb) PAR(callseed)
+        PAR(final_nb) PAR(callseed) PAR(cr_extra)
 #undef PAR
         if (!strcmp(k, "seed")) P.seed = strtoull(eq + 1, NULL, 10);
         *eq = '=';
@@ -402,7 +403,7 @@ int main(int argc, char **argv) {
         EbBufferHeaderType in; EbSvtIOFormat io; Pic pic;
         memset(&in, 0, sizeof(in));
         make_pic(&P, f, &io, &pic, &padrng);
-        in.size = sizeof(in); in.p_buffer = (uint8_t *)&io; in.n_filled_len = (uint32_t)(pic.ysz + 2 * pic.csz); in.n_alloc_len = in.n_filled_len;
+        in.size = sizeof(in); in.p_buffer = (uint8_t *)&io; in.n_filled_len = (uint32_t)(pic.ysz + pic.csz + pic.crsz); in.n_alloc_len = in.n_filled_len;
         in.pts = (int64_t)P.pts_base + (int64_t)f * P.pts_step; in.pic_type = EB_AV1_INVALID_PICTURE; in.flags = 0;
         in.p_app_private = (void *)(intptr_t)(1000 + f);
         e = svt_av1_enc_send_picture(h, &in);
